@@ -348,6 +348,8 @@ ORACLES = {
             _oracle('the same over two variables', 300, 5000, kind='rdrtree', nvars=2, rules=5, depth=3, n=3, abandon=True),
             _oracle('a rule with a consequent rule (next_rule), evaluated three times, also after an abandoned evaluation', 150,
                     2000, kind='nextrule', abandon=True),
+            _oracle('an inferring query whose constructor argument is a keyword-constrained term without a domain, evaluated again '
+                    'after abandoned evaluations', 150, 2500, kind='infer_nested'),
             _oracle('one expression object shared by two queries: a condition in the first, a comparison operand in the second', 100,
                     1500, kind='reuse'),
             _oracle('one expression that is a selected output AND a condition in the same query, evaluated twice', 100, 1500,
